@@ -84,6 +84,27 @@ def missingValue (s : SortKey) : Bytes :=
 /-- `MissingTextValueSource.Value`: the primary value, or the replacement when it is nil -/
 def keyOf (s : SortKey) (v : Option Bytes) : Bytes := v.getD (missingValue s)
 
+/-- a present sort value is strictly between the two replacements (bytewise): the exact condition under
+which `lowTerm` / `highTerm` do their job (`missing_first_last`) -/
+def keyInRange (v : Bytes) : Bool := bytesCmp lowTerm v == .lt && bytesCmp v highTerm == .lt
+
+/-- PROPERTY-level order of one sort key ("missing values placed first or last as requested"): a missing
+value (`none`) goes before / after every present one as `missingFirst` says, whatever `desc`; two present
+values in byte order, `desc` flips; no replacement bytes involved -/
+def cmpProp1 (s : SortKey) : Option Bytes → Option Bytes → Ordering
+  | none, none => .eq
+  | none, some _ => if s.missingFirst then .lt else .gt
+  | some _, none => if s.missingFirst then .gt else .lt
+  | some a, some b => if s.desc then (bytesCmp a b).swap else bytesCmp a b
+
+/-- PROPERTY-level order of whole sort values: first key that differs decides -/
+def cmpPropKeys : SortOrder → List (Option Bytes) → List (Option Bytes) → Ordering
+  | [], _, _ => .eq
+  | s :: so, ka, kb =>
+    match cmpProp1 s (ka.headD none) (kb.headD none) with
+    | .eq => cmpPropKeys so ka.tail kb.tail
+    | c => c
+
 /-! ## Specification: the full ranking and its slices -/
 
 /-- ordered insertion -/
